@@ -69,6 +69,9 @@ pub struct K17 {
     /// what answers on the gpsd port is not gpsd: this line is sent instead of the greeting
     #[serde(default)]
     pub gpsd_banner: Option<String>,
+    /// window size changes that take effect just before the client's n-th size query
+    #[serde(default)]
+    pub winsz_ops: Vec<(u64, u16, u16)>,
 }
 
 /// kinds of `--airports` arguments; the first three are files radar can use
@@ -200,7 +203,7 @@ pub const INVALID_CLI: [&[&str]; 20] = [
 pub fn generate(rng: &mut Rng, fault_free: bool) -> K17 {
     if !fault_free && rng.chance(0.08) {
         let a = *rng.pick(&INVALID_CLI);
-        return K17 { args: vec![], cols: 80, rows: 24, refused_first: 0, lines: vec![], events: vec![], quit_at_us: 100_000, quit_ctrl_c: false, proc_delay_us: vec![], reconnect_at_us: None, invalid_cli: Some(a.iter().map(|s| s.to_string()).collect()), rx: (35.0, -80.0), sweep: 0, compass: 0, ev_delay_us: vec![], gpsd: None, airports: None, rust_log: None, connect_errnos: vec![], airports_spoiled: None, tz: None, gpsd_banner: None };
+        return K17 { args: vec![], cols: 80, rows: 24, refused_first: 0, lines: vec![], events: vec![], quit_at_us: 100_000, quit_ctrl_c: false, proc_delay_us: vec![], reconnect_at_us: None, invalid_cli: Some(a.iter().map(|s| s.to_string()).collect()), rx: (35.0, -80.0), sweep: 0, compass: 0, ev_delay_us: vec![], gpsd: None, airports: None, rust_log: None, connect_errnos: vec![], airports_spoiled: None, tz: None, gpsd_banner: None, winsz_ops: vec![] };
     }
     let (cols, rows) = if fault_free {
         *rng.pick(&[(80u16, 24u16), (120, 40)])
@@ -398,6 +401,16 @@ pub fn generate(rng: &mut Rng, fault_free: bool) -> K17 {
     } else {
         None
     };
+    let winsz_ops: Vec<(u64, u16, u16)> = if !fault_free && rng.chance(0.15) {
+        (0..1 + rng.below(4))
+            .map(|_| {
+                let (w, h) = if rng.chance(0.6) { (cols.saturating_sub(1 + rng.below(30) as u16).max(1), rows.saturating_sub(1 + rng.below(12) as u16).max(1)) } else { *rng.pick(&SIZES) };
+                (rng.below(400), w, h)
+            })
+            .collect()
+    } else {
+        vec![]
+    };
     let tz = if !fault_free && rng.chance(0.4) { Some((*rng.pick(&["EST5EDT", "PST8PDT", "<-03>3", "<+0530>-5:30", "JST-9", "America/New_York", "<-11>11", "<+13>-13", "UTC0"])).to_string()) } else { None };
     // a session left alone: nothing from the operator and nothing new from the server for one to
     // five minutes of simulated time (every timer the client may own fires in that time)
@@ -457,9 +470,9 @@ pub fn generate(rng: &mut Rng, fault_free: bool) -> K17 {
         let args: Vec<String> = args.into_iter().filter(|a| !a.starts_with("--filter-time") && a != "--retry-tcp" && !a.starts_with("--max-range") && a != "--limit-parsing").collect();
         let mut args = args;
         args.retain(|a| a != "--disable-heading");
-        return K17 { args, cols, rows, refused_first: 0, lines: vec![], events, quit_at_us, quit_ctrl_c: false, proc_delay_us: vec![], reconnect_at_us: None, invalid_cli: None, rx: (35.0, -80.0), sweep, compass, ev_delay_us: vec![], gpsd: None, airports: None, rust_log: None, connect_errnos: vec![], airports_spoiled: None, tz: None, gpsd_banner: None };
+        return K17 { args, cols, rows, refused_first: 0, lines: vec![], events, quit_at_us, quit_ctrl_c: false, proc_delay_us: vec![], reconnect_at_us: None, invalid_cli: None, rx: (35.0, -80.0), sweep, compass, ev_delay_us: vec![], gpsd: None, airports: None, rust_log: None, connect_errnos: vec![], airports_spoiled: None, tz: None, gpsd_banner: None, winsz_ops: vec![] };
     }
-    K17 { args, cols, rows, refused_first, lines, events, quit_at_us, quit_ctrl_c: rng.chance(0.3), proc_delay_us, reconnect_at_us, invalid_cli: None, rx: RX, sweep: 0, compass: 0, ev_delay_us, gpsd, airports, rust_log, connect_errnos, airports_spoiled, tz, gpsd_banner }
+    K17 { args, cols, rows, refused_first, lines, events, quit_at_us, quit_ctrl_c: rng.chance(0.3), proc_delay_us, reconnect_at_us, invalid_cli: None, rx: RX, sweep: 0, compass: 0, ev_delay_us, gpsd, airports, rust_log, connect_errnos, airports_spoiled, tz, gpsd_banner, winsz_ops }
 }
 
 pub fn compile(sc: &K17) -> KChild {
@@ -519,7 +532,7 @@ pub fn compile(sc: &K17) -> KChild {
         let mut events = sc.events.clone();
         events.sort_by_key(|e| e.at_us);
         events.push(KEvent { at_us: sc.quit_at_us.max(events.last().map(|e| e.at_us).unwrap_or(0)), ev: KEv::Key { code: "c:q".into(), ctrl: false, shift: false, alt: false } });
-        return KChild { outage: None, tz: sc.tz.clone(), file_ops: vec![], rust_log: sc.rust_log.clone(), gpsd: None, ev_delay_us: vec![], connects, events, proc_delay_us: vec![], coalesce: vec![false], step_budget: 60_000 + 8 * (sc.sweep + sc.compass) as u64 };
+        return KChild { winsz_ops: vec![], outage: None, tz: sc.tz.clone(), file_ops: vec![], rust_log: sc.rust_log.clone(), gpsd: None, ev_delay_us: vec![], connects, events, proc_delay_us: vec![], coalesce: vec![false], step_budget: 60_000 + 8 * (sc.sweep + sc.compass) as u64 };
     }
     match sc.reconnect_at_us.filter(|_| sc.args.iter().any(|a| a == "--retry-tcp")) {
         Some(rc) => {
@@ -557,7 +570,7 @@ pub fn compile(sc: &K17) -> KChild {
         }
         KGpsd { refuse: *refuse, lines }
     });
-    KChild { outage: None, tz: sc.tz.clone(), file_ops, rust_log: sc.rust_log.clone(), gpsd, ev_delay_us: sc.ev_delay_us.clone(), connects, events, proc_delay_us: sc.proc_delay_us.clone(), coalesce: vec![], step_budget: 40_000 + sc.quit_at_us / 12_000 }
+    KChild { winsz_ops: sc.winsz_ops.clone(), outage: None, tz: sc.tz.clone(), file_ops, rust_log: sc.rust_log.clone(), gpsd, ev_delay_us: sc.ev_delay_us.clone(), connects, events, proc_delay_us: sc.proc_delay_us.clone(), coalesce: vec![], step_budget: 40_000 + sc.quit_at_us / 12_000 }
 }
 
 pub fn is_quit_json(j: &str) -> bool {
@@ -719,6 +732,9 @@ pub fn execute(sc: &K17) -> Outcome {
     if sc.tz.is_some() {
         out.fault("local_time_zone_not_utc");
     }
+    if p.run.seam_log.contains(" WINSZ ") {
+        out.fault("window_resized_between_two_size_queries");
+    }
     if p.run.seam_log.contains(" FILE ") {
         out.fault("airports_file_spoiled_while_running");
     }
@@ -830,6 +846,9 @@ pub fn shrink(sc: &K17) -> Vec<K17> {
     }
     if sc.gpsd_banner.is_some() {
         c.push(K17 { gpsd_banner: None, ..sc.clone() });
+    }
+    for v in drop_chunks(&sc.winsz_ops) {
+        c.push(K17 { winsz_ops: v, ..sc.clone() });
     }
     if sc.airports_spoiled.is_some() {
         c.push(K17 { airports_spoiled: None, ..sc.clone() });
